@@ -9,6 +9,7 @@ is instantiated with the facts regenerated from the Go source (`P`); the spec is
 -/
 import Gotlcp.Lemmas.Replay
 import Gotlcp.Lemmas.DtlcpRx
+import Gotlcp.Lemmas.DtlcpRxMix
 import Gotlcp.Generated.Facts
 import Gotlcp.Tie.Replay
 
@@ -18,6 +19,7 @@ open Gotlcp.Model.Replay
 open Gotlcp.Model.DtlcpRx
 open Gotlcp.Lemmas.Replay
 open Gotlcp.Lemmas.DtlcpRx
+open Gotlcp.Lemmas.DtlcpRxMix
 open Gotlcp.Spec
 
 /-- the parameters of the tree under test (regenerated on every run) -/
@@ -38,7 +40,8 @@ bitmap is a `uint64`; the default size is 64; every construction site passes
 extractor looked for is missing.  On the tree before the repair of F7 this does not hold
 (`replayNewCeil = none` and `replaySpanCeil = none`) and nothing below compiles.
 Receive paths: in `ReadFrom` and in `readRecordOrCCS` the header's epoch and sequence number
-are copied into the MAC / additional-data input before `decrypt`, and the only
+are copied into the MAC / additional-data input before `decrypt`, the number handed to
+`replayWindow.check` is the header's complete 48-bit sequence number (all six bytes), and the only
 `replayWindow.check` call comes after the only `decrypt` call and after the two epoch
 comparisons (older: drop, newer: new window);
 `ReadFrom` drops a record that fails `decrypt`. -/
@@ -52,6 +55,7 @@ theorem C16_facts :
     Facts.dtlcp.replayRxRecordOrder = ["decrypt", "epoch<", "epoch>", "check"] ∧
     Facts.dtlcp.replayRxReadFromDecryptFail = "discard" ∧
     Facts.dtlcp.replayRxSeqBound = true ∧
+    Facts.dtlcp.replayRxSeqArgFull = true ∧
     Facts.missing = [] := by decide
 
 /-- The repair of F14 is in the tree: after the handshake `readRecordOrCCS` drops a record that
@@ -236,6 +240,116 @@ theorem C16_fresh_genuine_delivered (path : Path) (acc : List (Nat × Nat)) (st 
     (hfresh : ReplaySpec.accept (span P st.win) (seenOf st.readEpoch acc) r.seq = true) :
     (step P Q path st (.record r)).2 = .data r.payload :=
   fresh_delivered P Q path acc st r h ha hk he herr hfresh
+
+/-! ### `Read` and `ReadFrom` on one connection, caller buffers of any size
+
+`Gotlcp.Model.DtlcpRxMix`: the socket as a queue, `c.readBuf` (the rest of a record a `Read`
+buffer was too small for), what `ReadFrom` leaves in `c.rawInputBuf`, the look-ahead of `Read`.
+A history is any list of actions: the network delivers a datagram, the application calls
+`Read` with an n-byte buffer, the application calls `ReadFrom` with an n-byte buffer.  A call
+hands over `chunk r off cnt`: bytes `off … off+cnt-1` of the payload of record `r`. -/
+
+/-- the datagrams the network delivered in a history -/
+def deliveredDgrams : List Act → List Dgram
+  | [] => []
+  | .deliver m :: as => m.d :: deliveredDgrams as
+  | _ :: as => deliveredDgrams as
+
+theorem mem_deliveredDgrams (acts : List Act) (md : MD) (h : Act.deliver md ∈ acts) : md.d ∈ deliveredDgrams acts := by
+  induction acts with
+  | nil => cases h
+  | cons a as ih =>
+    rcases List.mem_cons.mp h with rfl | h'
+    · exact List.mem_cons_self
+    · cases a <;> simp only [deliveredDgrams] <;> first | exact List.mem_cons_of_mem _ (ih h') | exact ih h'
+
+/-- Every byte range handed over, all histories, any mixture of the two read calls, any
+buffer sizes, any payload lengths: each call that returns bytes returns a range of the payload
+of an authentic application-data record that the network delivered; the range starts exactly
+where the bytes of that record handed over by earlier calls end (so no byte of a record is
+handed over twice and none out of order), it ends inside the payload, and all ranges under
+one (epoch, sequence number) come from one record.  `InOrder … [] outs` says this of every
+call relative to the calls before it. -/
+theorem C16_mix_in_order_once (cfg : Int) (plen : Nat → Nat) (acts : List Act) :
+    InOrder plen (deliveredDgrams acts) []
+      (mixRun P Q plen (Mix.start (afterHandshake P cfg)) acts).2 :=
+  (mixRun_ok P Q plen (deliveredDgrams acts) acts [(1, 0)] _ []
+    (mixInv_start P plen _ _ _ (inv_afterHandshake P P_good cfg))
+    (mem_deliveredDgrams acts)).1
+
+/-- … hence, with ideal record protection, every range handed over is part of a payload the
+peer protected on this connection under that epoch and sequence number. -/
+theorem C16_mix_authentic_only (sent : List SentRec) (cfg : Int) (plen : Nat → Nat) (acts : List Act)
+    (hI : Ideal sent (deliveredDgrams acts)) :
+    ∀ r off cnt t, MOut.chunk r off cnt t ∈ (mixRun P Q plen (Mix.start (afterHandshake P cfg)) acts).2 →
+      r.kind = .appData ∧ toSent r ∈ sent ∧ off + cnt ≤ plen r.payload := by
+  have h := C16_mix_in_order_once cfg plen acts
+  generalize (mixRun P Q plen (Mix.start (afterHandshake P cfg)) acts).2 = outs at h
+  suffices hs : ∀ (outs before : List MOut), InOrder plen (deliveredDgrams acts) before outs →
+      ∀ r off cnt t, MOut.chunk r off cnt t ∈ outs →
+        r.kind = .appData ∧ toSent r ∈ sent ∧ off + cnt ≤ plen r.payload from hs outs [] h
+  intro outs
+  induction outs with
+  | nil => intro _ _ r off cnt t hm; cases hm
+  | cons o os ih =>
+    intro before hio r off cnt t hm
+    rcases List.mem_cons.mp hm with rfl | hm
+    · obtain ⟨a, b, c, _, e, _⟩ := hio.1
+      exact ⟨b, hI.authentic_sent r c a, e⟩
+    · exact ih _ hio.2 r off cnt t hm
+
+/-- Every reachable state of the mixed machine keeps the replay-window invariant. -/
+theorem C16_mix_reachable_inv (cfg : Int) (plen : Nat → Nat) (acts : List Act) :
+    ∃ acc, RxInv P acc (mixRun P Q plen (Mix.start (afterHandshake P cfg)) acts).1.st :=
+  (mixRun_ok P Q plen (deliveredDgrams acts) acts [(1, 0)] _ []
+    (mixInv_start P plen _ _ _ (inv_afterHandshake P P_good cfg))
+    (mem_deliveredDgrams acts)).2
+
+/-- Inside every call, datagrams that do not authenticate are skipped without effect: the
+record loop of `Read` (no error latched) and the datagram loop of `ReadFrom` end in the same
+replay state and with the same result on the socket contents with every such datagram
+removed — whatever `c.rawInputBuf` held. -/
+theorem C16_mix_forgeries_skipped (st : State) (raw raw' : Option MD) (ms : List MD) :
+    (st.err = none →
+      (recLoop P Q st ms).1 = (recLoop P Q st (ms.filter fun m => m.d.authentic)).1 ∧
+      (recLoop P Q st ms).2.1 = (recLoop P Q st (ms.filter fun m => m.d.authentic)).2.1) ∧
+    (fromLoop P st raw ms).1 = (fromLoop P st raw' (ms.filter fun m => m.d.authentic)).1 ∧
+    (fromLoop P st raw ms).2.1 = (fromLoop P st raw' (ms.filter fun m => m.d.authentic)).2.1 :=
+  ⟨fun h => recLoop_filter P Q C16_facts_read_path ms st h, fromLoop_filter P ms st raw raw'⟩
+
+/-- non-vacuity, and the history of the mixed-call defect class: 96-byte record A partly read
+by `Read` (16 bytes), record B by `ReadFrom`, then `Read` hands over the REST OF A — not bytes
+of B — and a forged datagram in between changes nothing -/
+example :
+    let A : Rec := ⟨1, 1, true, .appData, 1⟩
+    let B : Rec := ⟨1, 2, true, .appData, 2⟩
+    let acts : List Act := [.deliver ⟨.record A, false⟩, .read 16, .deliver ⟨.record ⟨1, 3, false, .appData, 0⟩, false⟩,
+      .deliver ⟨.record B, false⟩, .readFrom 4096, .read 4096, .read 4096]
+    (mixRun P Q (fun _ => 96) (Mix.start (afterHandshake P 64)) acts).2 =
+      [.queued, .chunk A 0 16 .none, .queued, .queued, .chunk B 0 96 .none, .chunk A 16 80 .none, .timeout] := by
+  decide
+
+/-- the hypothesis of `C16_mix_authentic_only` is satisfiable on that history -/
+example :
+    Ideal [⟨1, 1, .appData, 1⟩, ⟨1, 2, .appData, 2⟩]
+      (deliveredDgrams [.deliver ⟨.record ⟨1, 1, true, .appData, 1⟩, false⟩, .read 16,
+        .deliver ⟨.record ⟨1, 3, false, .appData, 0⟩, false⟩,
+        .deliver ⟨.record ⟨1, 2, true, .appData, 2⟩, false⟩, .readFrom 4096, .read 4096, .read 4096]) := by
+  refine ⟨?_, by decide⟩
+  intro r hm ha
+  simp only [deliveredDgrams, List.mem_cons, Dgram.record.injEq, List.not_mem_nil, or_false] at hm
+  rcases hm with h | h | h <;> subst h <;> first | (exact absurd ha (by decide)) | decide
+
+/-- the look-ahead of `Read`: `ReadFrom` consumed the close_notify and left it in
+`c.rawInputBuf`; the `Read` that drains the rest of record 1 runs `readRecord()` again, finds
+the socket empty and returns its bytes together with the timeout -/
+example :
+    let A : Rec := ⟨1, 1, true, .appData, 1⟩
+    let acts : List Act := [.deliver ⟨.record A, false⟩, .deliver ⟨.record ⟨1, 2, true, .closeNotify, 2⟩, true⟩,
+      .read 7, .readFrom 100, .read 100]
+    (mixRun P Q (fun _ => 21) (Mix.start (afterHandshake P 64)) acts).2 =
+      [.queued, .queued, .chunk A 0 7 .none, .eof, .chunk A 7 14 .timeout] := by
+  decide
 
 /-! ### non-vacuity and the witnesses of findings F7, F14 -/
 
